@@ -31,6 +31,8 @@ Fails(e) ==
       [] e.op = "eta" -> EtaFails(e)
       [] e.op = "jit_compose" -> JitComposeFails(e)
       [] e.op = "steps" -> StepsFails(e)
+      [] e.op = "poisson" -> PoissonFails(e)
+      [] e.op = "poisson_pmf" -> PoissonPmfFails(e)
       [] e.op = "curve_trace" -> CurveTraceFails(e)
       [] e.op = "derive" -> DeriveFails(e)
       [] e.op = "dmin_iter" -> DminIterFails(e)
